@@ -422,6 +422,9 @@ def mv_data(d, ncol):
         elif d == 'TEXT':
             df = mv_data('A', ncol).copy().astype(object)
             df.iloc[2, 0] = 'x'
+        elif d == 'NUMTEXT':                # text that happens to parse as numbers is text
+            df = mv_data('A', ncol).copy()
+            df[cols[1]] = df[cols[1]].map(lambda v: '%.3f' % v)
         elif d == 'BOOL':                   # homogeneous non-numeric data with a non-object dtype
             df = mv_data('A', ncol) > 0.5
         elif d == 'DATE':
@@ -444,7 +447,7 @@ class GaussBinding(Binding):
     kind = 'gauss'
     rejects = True
     valid = ('A', 'B', 'K1', 'K2')
-    invalid = ('NAN', 'EMPTY', 'TEXT', 'BOOL', 'DATE')
+    invalid = ('NAN', 'EMPTY', 'TEXT', 'NUMTEXT', 'BOOL', 'DATE')
     cfgs = ('c1', 'c2')
 
     def __init__(self, ncol, conditional=False):
@@ -505,7 +508,7 @@ class VineBinding(Binding):
     rejects = True
     unfitted_dict_ok = True
     valid = ('A', 'B')
-    invalid = ('NAN', 'EMPTY', 'TEXT', 'BOOL', 'DATE')
+    invalid = ('NAN', 'EMPTY', 'TEXT', 'NUMTEXT', 'BOOL', 'DATE')
     methods = ('pdf',)
     json_ok = False
 
